@@ -1,5 +1,5 @@
 (* C11: load (save x) reproduces x, for every persistable type of the model. *)
-From Coq Require Import ZArith List Bool Lia ZifyBool.
+From Coq Require Import ZArith List Bool Lia ZifyBool Sorted.
 From VV Require Import Serial.SerialDefs Serial.CodecProofs.
 Import ListNotations.
 Local Open Scope Z_scope.
@@ -34,3 +34,541 @@ Proof.
   rewrite (read_u64_show b [32] ([10] ++ rest)) by (auto; reflexivity).
   reflexivity.
 Qed.
+
+(* ------------------------------------------------------------------------ *)
+(* generic machinery                                                        *)
+(* ------------------------------------------------------------------------ *)
+Definition sep_start (r : stream) : Prop := match r with [] => True | c :: _ => is_ws c = true end.
+Lemma sep_start_nds : forall r, sep_start r -> nds r.
+Proof. intros [|c r]; cbn; [trivial|]. unfold is_ws, is_digit. lia. Qed.
+
+(* a parser reads back one printed element and stops before its final newline *)
+Definition prt_spec {A} (sv : A -> stream) (p : parser A) (norm : A -> A) (x : A) : Prop :=
+  forall pre rest, all_ws pre -> p (pre ++ sv x ++ rest) = Some (norm x, 10 :: rest).
+(* the same for a loader: whatever the target *)
+Definition rt_spec {T} (sv : T -> stream) (ld : stream -> T -> lres T) (norm : T -> T) (x : T) : Prop :=
+  forall pre rest t, all_ws pre -> ld (pre ++ sv x ++ rest) t = (true, norm x, 10 :: rest).
+
+Lemma parser_of_spec : forall T sv (ld : stream -> T -> lres T) norm dflt x,
+  rt_spec sv ld norm x -> prt_spec sv (parser_of ld dflt) norm x.
+Proof. intros T sv ld norm dflt x H pre rest Hp. unfold parser_of. now rewrite H. Qed.
+
+Lemma flat_map_len : forall A (sv : A -> stream) xs,
+  (forall x, In x xs -> (0 < length (sv x))%nat) -> (length xs <= length (flat_map sv xs))%nat.
+Proof.
+  induction xs as [|x xs IH]; intro H; [cbn; lia|].
+  cbn [flat_map length]. rewrite app_length.
+  pose proof (H x (or_introl eq_refl)). specialize (IH (fun y Hy => H y (or_intror Hy))). lia.
+Qed.
+
+Lemma zlen_cons : forall A (x : A) xs, zlen (x :: xs) = 1 + zlen xs.
+Proof. intros. unfold zlen. cbn [length]. lia. Qed.
+Lemma zlen_nonneg : forall A (xs : list A), 0 <= zlen xs.
+Proof. intros. unfold zlen. lia. Qed.
+
+Lemma rep_rt : forall A (sv : A -> stream) (p : parser A) norm xs rest fuel,
+  (forall x, In x xs -> prt_spec sv p norm x) -> (length xs <= fuel)%nat ->
+  rep p fuel (zlen xs) (10 :: flat_map sv xs ++ rest) = Some (map norm xs, 10 :: rest).
+Proof.
+  induction xs as [|x xs IH]; intros rest fuel Hs Hf.
+  - destruct fuel; reflexivity.
+  - destruct fuel as [|f]; [cbn in Hf; lia|].
+    cbn [rep]. rewrite zlen_cons.
+    pose proof (zlen_nonneg A xs) as Hz.
+    destruct (1 + zlen xs <=? 0) eqn:E; [lia|].
+    cbn [flat_map]. rewrite <- app_assoc.
+    change (10 :: sv x ++ flat_map sv xs ++ rest) with ([10] ++ sv x ++ (flat_map sv xs ++ rest)).
+    rewrite (Hs x (or_introl eq_refl) [10] (flat_map sv xs ++ rest) all_ws_nl).
+    replace (1 + zlen xs - 1) with (zlen xs) by lia.
+    rewrite IH; [reflexivity| |cbn in Hf; lia].
+    intros y Hy. apply Hs. now right.
+Qed.
+
+(* the fuel handed to rep at the call sites (length of the stream) suffices *)
+Lemma rep_rt_len : forall A (sv : A -> stream) (p : parser A) norm xs rest,
+  (forall x, In x xs -> prt_spec sv p norm x) ->
+  (forall x, In x xs -> (0 < length (sv x))%nat) ->
+  rep p (length (10 :: flat_map sv xs ++ rest)) (zlen xs) (10 :: flat_map sv xs ++ rest)
+  = Some (map norm xs, 10 :: rest).
+Proof.
+  intros. apply rep_rt; [assumption|].
+  cbn [length]. rewrite app_length. pose proof (flat_map_len A sv xs H0). lia.
+Qed.
+
+Lemma map_id_ext : forall A (f : A -> A) xs, (forall x, In x xs -> f x = x) -> map f xs = xs.
+Proof.
+  induction xs as [|x xs IH]; intro H; [reflexivity|].
+  cbn [map]. rewrite (H x (or_introl eq_refl)), IH; [reflexivity|]. intros y Hy. apply H. now right.
+Qed.
+
+(* ------------------------------------------------------------ matrix<int> *)
+Definition wf_matrix (m : matrix) : Prop :=
+  is_u64 (mx_cols m) /\ is_u64 (mx_rows m) /\ zlen (mx_data m) = mx_cols m * mx_rows m /\
+  is_u64 (zlen (mx_data m)) /\ Forall is_i32 (mx_data m).
+
+Lemma i32_elem_spec : forall e, is_i32 e -> prt_spec (fun e => show_i e ++ [10]) read_i32 (fun e => e) e.
+Proof.
+  intros e He pre rest Hp. rewrite <- app_assoc.
+  apply read_i32_show; [assumption|assumption|reflexivity].
+Qed.
+
+Lemma show_i_len : forall e, (0 < length (show_i e ++ [10%Z]))%nat.
+Proof. intro. rewrite app_length. cbn. lia. Qed.
+
+Lemma matrix_rt : forall m, wf_matrix m -> rt_spec matrix_save matrix_load (fun m => m) m.
+Proof.
+  intros [cs data] (Hc & Hr & Hlen & Hsz & Hd) pre rest t Hp. cbn [mx_cols mx_data] in *.
+  unfold matrix_load, matrix_save. cbn [mx_cols mx_data].
+  repeat rewrite <- app_assoc.
+  rewrite read_u64_show by (auto; reflexivity).
+  rewrite (read_u64_show _ [32]) by (auto; reflexivity).
+  set (r := mx_rows {| mx_cols := cs; mx_data := data |}) in *.
+  assert (Hm : (cs * r) mod (u64_max + 1) = zlen data).
+  { rewrite <- Hlen. apply Z.mod_small. unfold is_u64 in Hsz. lia. }
+  rewrite Hm.
+  change ([10] ++ flat_map (fun e => show_i e ++ [10]) data ++ rest)
+    with (10 :: flat_map (fun e => show_i e ++ [10]) data ++ rest).
+  rewrite (rep_rt_len Z (fun e => show_i e ++ [10]) read_i32 (fun e => e)).
+  - rewrite map_id. reflexivity.
+  - intros e He. apply i32_elem_spec. rewrite Forall_forall in Hd. now apply Hd.
+  - intros. apply show_i_len.
+Qed.
+
+(* --------------------------------------------------------------- i_ga *)
+Definition vec_norm (v : vec_ind) : vec_ind :=
+  {| v_age := v_age v; v_genome := v_genome v; v_sig := hash_empty |}.
+Definition wf_ga (v : vec_ind) : Prop :=
+  is_u32 (v_age v) /\ is_u64 (zlen (v_genome v)) /\ Forall is_i32 (v_genome v).
+
+Lemma vec_rt_gen : forall (elem : parser Z) (sve : Z -> stream) v,
+  is_u32 (v_age v) -> is_u64 (zlen (v_genome v)) ->
+  (forall g, In g (v_genome v) -> prt_spec (fun g => sve g ++ [10]) elem (fun g => g) g) ->
+  rt_spec (fun v => show_u (v_age v) ++ [10] ++ show_u (zlen (v_genome v)) ++ [10]
+                    ++ flat_map (fun g => sve g ++ [10]) (v_genome v))
+          (vec_load elem) vec_norm v.
+Proof.
+  intros elem sve [age g sg] Ha Hn He pre rest t Hp. cbn [v_age v_genome] in *.
+  unfold vec_load, vec_load_impl. repeat rewrite <- app_assoc.
+  rewrite read_u32_show by (auto; reflexivity).
+  rewrite (read_u64_show _ [10]) by (auto; reflexivity).
+  change ([10] ++ flat_map (fun g0 => sve g0 ++ [10]) g ++ rest)
+    with (10 :: flat_map (fun g0 => sve g0 ++ [10]) g ++ rest).
+  rewrite (rep_rt_len Z (fun g0 => sve g0 ++ [10]) elem (fun g0 => g0)).
+  - rewrite map_id. reflexivity.
+  - assumption.
+  - intros. rewrite app_length. cbn. lia.
+Qed.
+
+Lemma ga_rt : forall v, wf_ga v -> rt_spec ga_save ga_load vec_norm v.
+Proof.
+  intros v (Ha & Hn & Hg). apply (vec_rt_gen read_i32 show_i); try assumption.
+  intros g Hin. apply i32_elem_spec. rewrite Forall_forall in Hg. now apply Hg.
+Qed.
+
+(* ------------------------------------------------------------------------ *)
+(* types with floating-point text                                           *)
+(* ------------------------------------------------------------------------ *)
+Definition no_ws (l : stream) : Prop := forallb (fun c => negb (is_ws c)) l = true.
+
+(* The 17-significant-digit round trip of a correctly rounding C library, in
+   stream form: the text of a finite double is not empty, has no white space
+   in it, and operator>> (after any white space) reads it back bit for bit
+   when what follows is the end of the stream or white space. *)
+Definition float_text_ok (show17 : Z -> stream) (read_f : parser Z) : Prop :=
+  forall x, finite_b x = true ->
+  show17 x <> [] /\ no_ws (show17 x) /\
+  forall pre rest, all_ws pre -> sep_start rest -> read_f (pre ++ show17 x ++ rest) = Some (x, rest).
+(* operator>> fails at the end of the stream, also after skipping blanks *)
+Definition blank_fails (read_f : parser Z) : Prop := forall pre, all_ws pre -> read_f pre = None.
+
+Section Floats.
+Variable show17 : Z -> stream.
+Variable read_f : parser Z.
+Hypothesis H_17digits : float_text_ok show17 read_f.
+
+Lemma read_f_show : forall x pre rest, finite_b x = true -> all_ws pre -> sep_start rest ->
+  read_f (pre ++ show17 x ++ rest) = Some (x, rest).
+Proof. intros x pre rest Hx. destruct (H_17digits x Hx) as (_ & _ & H). apply H. Qed.
+
+Lemma f_elem_spec : forall x, finite_b x = true ->
+  prt_spec (fun x => show17 x ++ [10]) read_f (fun x => x) x.
+Proof.
+  intros x Hx pre rest Hp. rewrite <- app_assoc. apply read_f_show; [assumption|assumption|reflexivity].
+Qed.
+
+(* --------------------------------------------------------------- i_de *)
+Definition wf_de (v : vec_ind) : Prop :=
+  is_u32 (v_age v) /\ is_u64 (zlen (v_genome v)) /\ Forall (fun x => finite_b x = true) (v_genome v).
+
+Lemma de_rt : forall v, wf_de v -> rt_spec (de_save show17) (de_load read_f) vec_norm v.
+Proof.
+  intros v (Ha & Hn & Hg). apply (vec_rt_gen read_f show17); try assumption.
+  intros g Hin. apply f_elem_spec. rewrite Forall_forall in Hg. now apply Hg.
+Qed.
+
+(* ---------------------------------------------------------- fitness_t *)
+Definition wf_fit (f : list Z) : Prop := f <> [] /\ Forall (fun x => finite_b x = true) f.
+
+(* the text of a fitness line *)
+Fixpoint fit_line (f : list Z) : stream :=
+  match f with [] => [] | x :: r => show17 x ++ [32] ++ fit_line r end.
+Lemma fit_save_line : forall f, fit_save show17 f = fit_line f ++ [10].
+Proof. induction f as [|x f IH]; [reflexivity|]. cbn [fit_save fit_line]. rewrite IH. now repeat rewrite <- app_assoc. Qed.
+
+Lemma no_ws_no_nl : forall l, no_ws l -> forallb (fun c => negb (c =? 10)) l = true.
+Proof.
+  induction l as [|c l IH]; intro H; [reflexivity|].
+  unfold no_ws in H. cbn [forallb] in *. apply andb_prop in H as [H1 H2].
+  rewrite (IH H2). unfold is_ws in H1. destruct (c =? 10) eqn:E; [lia|reflexivity].
+Qed.
+
+Lemma take_line_app : forall l r, forallb (fun c => negb (c =? 10)) l = true ->
+  take_line (l ++ 10 :: r) = (l, r).
+Proof.
+  induction l as [|c l IH]; intros r H.
+  - reflexivity.
+  - cbn [forallb] in H. apply andb_prop in H as [H1 H2].
+    cbn [app take_line]. destruct (c =? 10); [discriminate|]. now rewrite IH.
+Qed.
+
+Lemma fit_line_no_nl : forall f, Forall (fun x => finite_b x = true) f ->
+  forallb (fun c => negb (c =? 10)) (fit_line f) = true.
+Proof.
+  induction f as [|x f IH]; intro H; [reflexivity|].
+  inversion H as [|? ? Hx Hf]; subst. cbn [fit_line].
+  rewrite forallb_app. destruct (H_17digits x Hx) as (_ & Hn & _).
+  rewrite (no_ws_no_nl _ Hn). cbn [app forallb]. now rewrite IH.
+Qed.
+
+Hypothesis H_read_blank : blank_fails read_f.
+
+Lemma read_floats_line : forall f fuel pre, Forall (fun x => finite_b x = true) f ->
+  all_ws pre -> (length f < fuel)%nat -> read_floats read_f fuel (pre ++ fit_line f) = f.
+Proof.
+  induction f as [|x f IH]; intros fuel pre H Hp Hf.
+  - destruct fuel as [|fuel]; [reflexivity|]. cbn [read_floats fit_line]. rewrite app_nil_r.
+    now rewrite (H_read_blank pre Hp).
+  - inversion H as [|? ? Hx Hr]; subst.
+    destruct fuel as [|fuel]; [cbn in Hf; lia|].
+    cbn [read_floats fit_line].
+    rewrite (read_f_show x pre ([32] ++ fit_line f) Hx Hp eq_refl).
+    destruct (H_17digits x Hx) as (Hne & _ & _).
+    assert (Hl : Nat.ltb (length ([32] ++ fit_line f)) (length (pre ++ show17 x ++ [32] ++ fit_line f)) = true).
+    { apply Nat.ltb_lt. repeat rewrite app_length. destruct (show17 x); [contradiction|]. cbn [length]. lia. }
+    rewrite Hl. f_equal. apply IH; [assumption|reflexivity|cbn in Hf; lia].
+Qed.
+
+Lemma fit_line_len : forall f, (length f <= length (fit_line f))%nat.
+Proof.
+  induction f as [|x f IH]; [cbn; lia|]. cbn [fit_line length]. repeat rewrite app_length. cbn [length]. lia.
+Qed.
+
+Lemma fit_line_head : forall x f, finite_b x = true ->
+  exists c l, fit_line (x :: f) = c :: l /\ is_ws c = false.
+Proof.
+  intros x f Hx. destruct (H_17digits x Hx) as (Hne & Hn & _).
+  cbn [fit_line]. destruct (show17 x) as [|c l]; [contradiction|].
+  exists c, (l ++ [32] ++ fit_line f). split; [reflexivity|].
+  unfold no_ws in Hn. cbn [forallb] in Hn. apply andb_prop in Hn as [H1 _].
+  now destruct (is_ws c).
+Qed.
+
+(* fitness_t::load consumes its whole line, newline included *)
+Lemma fit_rt : forall f pre rest t, wf_fit f -> all_ws pre ->
+  fit_load read_f (pre ++ fit_save show17 f ++ rest) t = (true, f, rest).
+Proof.
+  intros f pre rest t [Hne Hf] Hp. unfold fit_load.
+  rewrite skip_ws_app by assumption. rewrite fit_save_line.
+  destruct f as [|x f]; [contradiction|].
+  inversion Hf as [|? ? Hx Hr]; subst.
+  destruct (fit_line_head x f Hx) as (c & l & E & Hc).
+  rewrite <- app_assoc. cbn [app]. rewrite E. cbn [app skip_ws]. rewrite Hc.
+  change (c :: l ++ 10 :: rest) with ((c :: l) ++ 10 :: rest). rewrite <- E.
+  rewrite take_line_app by (now apply fit_line_no_nl).
+  f_equal. f_equal.
+  apply (read_floats_line (x :: f) _ []); [assumption|reflexivity|].
+  pose proof (fit_line_len (x :: f)). lia.
+Qed.
+
+(* ----------------------------------------------- distribution<double> *)
+Definition key_lt (a b : Z * Z) : Prop := dkey (fst a) < dkey (fst b).
+Definition wf_dist (d : distribution) : Prop :=
+  is_u64 (d_count d) /\ finite_b (d_mean d) = true /\ finite_b (d_min d) = true /\
+  finite_b (d_max d) = true /\ finite_b (d_m2 d) = true /\ is_u64 (zlen (d_seen d)) /\
+  Forall (fun kv => finite_b (fst kv) = true /\ is_u64 (snd kv)) (d_seen d) /\
+  StronglySorted key_lt (d_seen d).
+
+Definition ins (acc : list (Z * Z)) (kv : Z * Z) := map_set acc (fst kv) (snd kv).
+
+Lemma map_set_snoc : forall acc k v, Forall (fun a => dkey (fst a) < dkey k) acc ->
+  map_set acc k v = acc ++ [(k, v)].
+Proof.
+  induction acc as [|[k' v'] acc IH]; intros k v H; [reflexivity|].
+  inversion H as [|? ? H1 H2]; subst. cbn [fst] in H1.
+  cbn [map_set app]. destruct (dkey k <? dkey k') eqn:E1; [lia|].
+  destruct (dkey k' <? dkey k) eqn:E2; [|lia]. now rewrite IH.
+Qed.
+
+Lemma fold_ins_sorted : forall kvs acc, StronglySorted key_lt kvs ->
+  Forall (fun a => Forall (fun b => key_lt a b) kvs) acc ->
+  fold_left ins kvs acc = acc ++ kvs.
+Proof.
+  induction kvs as [|[k v] kvs IH]; intros acc Hs Ha; [now rewrite app_nil_r|].
+  inversion Hs as [|? ? Hs' Hk]; subst.
+  cbn [fold_left]. unfold ins at 2. cbn [fst snd].
+  rewrite map_set_snoc.
+  - rewrite IH; [now rewrite <- app_assoc| assumption |].
+    apply Forall_app. split.
+    + eapply Forall_impl; [|exact Ha]. intros a Hall. now inversion Hall.
+    + constructor; [exact Hk|constructor].
+  - eapply Forall_impl; [|exact Ha]. intros a Hall. inversion Hall as [|? ? H1 _]; subst. exact H1.
+Qed.
+
+Lemma kv_spec : forall kv, finite_b (fst kv) = true -> is_u64 (snd kv) ->
+  prt_spec (fun kv => show17 (fst kv) ++ [32] ++ show_u (snd kv) ++ [10]) (kv_parse read_f) (fun kv => kv) kv.
+Proof.
+  intros [k v] Hk Hv pre rest Hp. cbn [fst snd] in *. unfold kv_parse.
+  repeat rewrite <- app_assoc.
+  rewrite read_f_show by (auto; reflexivity).
+  rewrite (read_u64_show v [32]) by (auto; reflexivity). reflexivity.
+Qed.
+
+Lemma dist_rt : forall d, wf_dist d -> rt_spec (dist_save show17) (dist_load read_f) (fun d => d) d.
+Proof.
+  intros [c m mn mx m2 seen] (Hc & Hm & Hmn & Hmx & Hm2 & Hn & Hkv & Hs) pre rest t Hp.
+  cbn [d_count d_mean d_min d_max d_m2 d_seen] in *.
+  unfold dist_load, dist_save. cbn [d_count d_mean d_min d_max d_m2 d_seen].
+  repeat rewrite <- app_assoc.
+  rewrite read_u64_show by (auto; reflexivity).
+  rewrite (read_f_show m [10]) by (auto; reflexivity).
+  rewrite (read_f_show mn [10]) by (auto; reflexivity).
+  rewrite (read_f_show mx [10]) by (auto; reflexivity).
+  rewrite (read_f_show m2 [10]) by (auto; reflexivity).
+  rewrite (read_u64_show _ [10]) by (auto; reflexivity).
+  set (sv := fun kv : Z * Z => show17 (fst kv) ++ [32] ++ show_u (snd kv) ++ [10]).
+  change ([10] ++ flat_map sv seen ++ rest) with (10 :: flat_map sv seen ++ rest).
+  rewrite (rep_rt_len (Z * Z) sv (kv_parse read_f) (fun kv => kv)).
+  - rewrite map_id.
+    change (fun (acc : list (Z * Z)) (kv : Z * Z) => map_set acc (fst kv) (snd kv)) with ins.
+    rewrite (fold_ins_sorted seen [] Hs (Forall_nil _)). reflexivity.
+  - intros kv Hin. rewrite Forall_forall in Hkv. destruct (Hkv kv Hin). now apply kv_spec.
+  - intros kv _. unfold sv. repeat rewrite app_length. cbn [length]. lia.
+Qed.
+
+(* ------------------------------------------------------------- i_mep *)
+Definition wf_gene (ss : symset) (g : gene) : Prop :=
+  is_u32 (g_op g) /\
+  exists y, decode ss (g_op g) = Some y /\ length (g_args g) = sy_arity y /\
+            Forall is_u16 (g_args g) /\
+            (if is_param y then finite_b (g_par g) = true else g_par g = 0).
+
+Definition wf_mep (ss : symset) (m : mep) : Prop :=
+  is_u32 (m_age m) /\ is_u32 (m_cols m) /\ is_u32 (mep_rows m) /\
+  zlen (m_genes m) = mep_rows m * m_cols m /\
+  Forall (wf_gene ss) (m_genes m) /\
+  (if mep_rows m =? 0 then m_best m = npos else is_u64 (fst (m_best m)) /\ is_u64 (snd (m_best m))).
+
+Definition mep_norm (m : mep) : mep :=
+  {| m_age := m_age m; m_cols := m_cols m; m_genes := m_genes m; m_best := m_best m; m_sig := hash_empty |}.
+
+Definition args_text (args : list Z) : stream := flat_map (fun a => [32] ++ show_u a) args.
+
+Lemma args_text_nds : forall args r, nds r -> nds (args_text args ++ r).
+Proof. intros [|a args] r H; [exact H|reflexivity]. Qed.
+
+Lemma args_rt : forall args r fuel, Forall is_u16 args -> nds r -> (length args <= fuel)%nat ->
+  rep read_u16 fuel (zlen args) (args_text args ++ r) = Some (args, r).
+Proof.
+  induction args as [|a args IH]; intros r fuel H Hr Hf.
+  - destruct fuel; reflexivity.
+  - inversion H as [|? ? Ha Hrest]; subst.
+    destruct fuel as [|f]; [cbn in Hf; lia|].
+    cbn [rep]. rewrite zlen_cons. pose proof (zlen_nonneg Z args).
+    destruct (1 + zlen args <=? 0) eqn:E; [lia|].
+    unfold args_text. cbn [flat_map]. repeat rewrite <- app_assoc.
+    rewrite (read_u16_show a [32]); [|assumption|reflexivity|now apply args_text_nds].
+    replace (1 + zlen args - 1) with (zlen args) by lia.
+    fold (args_text args). rewrite IH; [reflexivity|assumption|assumption|cbn in Hf; lia].
+Qed.
+
+Lemma gene_spec : forall ss g, wf_gene ss g -> prt_spec (gene_save show17 ss) (gene_parse read_f ss) (fun g => g) g.
+Proof.
+  intros ss [op par args] (Hop & y & Hd & Hlen & Hargs & Hpar) pre rest Hp.
+  cbn [g_op g_par g_args] in *. unfold gene_parse, gene_save. cbn [g_op g_par g_args]. rewrite Hd.
+  fold (args_text args). repeat rewrite <- app_assoc.
+  destruct (is_param y) eqn:Ep.
+  - (* parametric terminal: no arguments *)
+    assert (Har : sy_arity y = O) by (unfold is_param in Ep; destruct (sy_arity y); [reflexivity|discriminate]).
+    rewrite Har in *. destruct args; [|discriminate]. cbn [args_text flat_map app].
+    rewrite read_u32_show by (auto; reflexivity).
+    rewrite Hd, Ep.
+    change (32 :: show17 par ++ 10 :: rest) with ([32] ++ show17 par ++ (10 :: rest)).
+    rewrite read_f_show by (auto; reflexivity). rewrite Har. reflexivity.
+  - rewrite read_u32_show; [|assumption|assumption|].
+    2:{ cbn [app]. apply args_text_nds. reflexivity. }
+    rewrite Hd, Ep. cbn [app].
+    rewrite <- Hlen. change (Z.of_nat (length args)) with (zlen args).
+    rewrite args_rt; [|assumption|reflexivity|lia].
+    rewrite Hpar. reflexivity.
+Qed.
+
+Lemma gene_save_len : forall ss g, (0 < length (gene_save show17 ss g))%nat.
+Proof. intros. unfold gene_save. repeat rewrite app_length. cbn [length]. lia. Qed.
+
+Lemma mep_rt : forall ss m, wf_mep ss m -> rt_spec (mep_save show17 ss) (mep_load read_f ss) mep_norm m.
+Proof.
+  intros ss m (Ha & Hc & Hr & Hlen & Hg & Hb) pre rest t Hp.
+  unfold mep_load, mep_save, mep_save_impl, mep_load_impl, mep_norm.
+  repeat rewrite <- app_assoc.
+  rewrite read_u32_show by (auto; reflexivity).
+  rewrite (read_u32_show _ [10]) by (auto; reflexivity).
+  rewrite (read_u32_show _ [32]) by (auto; reflexivity).
+  rewrite <- Hlen.
+  set (tail := (if mep_rows m mod (u32_max + 1) =? 0 then []
+                else show_u (fst (m_best m)) ++ [32] ++ show_u (snd (m_best m)) ++ [10]) ++ rest).
+  change ([10] ++ flat_map (gene_save show17 ss) (m_genes m) ++ tail)
+    with (10 :: flat_map (gene_save show17 ss) (m_genes m) ++ tail).
+  rewrite (rep_rt_len gene (gene_save show17 ss) (gene_parse read_f ss) (fun g => g)).
+  2:{ intros g Hin. apply gene_spec. rewrite Forall_forall in Hg. now apply Hg. }
+  2:{ intros. apply gene_save_len. }
+  rewrite map_id. subst tail.
+  assert (Hmod : mep_rows m mod (u32_max + 1) = mep_rows m)
+    by (apply Z.mod_small; unfold is_u32 in Hr; lia).
+  rewrite Hmod.
+  destruct (mep_rows m =? 0) eqn:E0.
+  - cbn [app fst snd]. rewrite Hb. reflexivity.
+  - destruct Hb as [Hb1 Hb2]. repeat rewrite <- app_assoc.
+    change (10 :: show_u (fst (m_best m)) ++ [32] ++ show_u (snd (m_best m)) ++ [10] ++ rest)
+      with ([10] ++ show_u (fst (m_best m)) ++ [32] ++ show_u (snd (m_best m)) ++ [10] ++ rest).
+    rewrite (read_u64_show _ [10]) by (auto; reflexivity).
+    rewrite (read_u64_show _ [32]) by (auto; reflexivity).
+    cbn [fst snd]. destruct (m_best m). reflexivity.
+Qed.
+
+(* ------------------------------------------- containers of individuals *)
+Section ContainersRT.
+Variable I : Type.
+Variable isave : I -> stream.
+Variable iload : stream -> I -> lres I.
+Variable idflt : I.
+Variable inorm : I -> I.
+(* what is known of the contained individuals: they round-trip (wfI x) *)
+Variable wfI : I -> Prop.
+Hypothesis H_ind : forall x, wfI x -> rt_spec isave iload inorm x.
+Hypothesis H_ind_len : forall x, (0 < length (isave x))%nat.
+
+Lemma ind_parse_spec : forall x, wfI x -> prt_spec isave (ind_parse I iload idflt) inorm x.
+Proof. intros x Hx. apply parser_of_spec. now apply H_ind. Qed.
+
+Definition team_norm (t : team I) : team I := {| t_inds := map inorm (t_inds t); t_sig := hash_empty |}.
+Definition wf_team (t : team I) : Prop :=
+  t_inds t <> [] /\ is_u32 (zlen (t_inds t)) /\ Forall wfI (t_inds t).
+
+Lemma team_rt : forall tm, wf_team tm ->
+  rt_spec (team_save I isave) (team_load I iload idflt) team_norm tm.
+Proof.
+  intros [inds sg] (Hne & Hn & Hi) pre rest t Hp. cbn [t_inds] in *.
+  unfold team_load, team_save, team_norm. cbn [t_inds]. repeat rewrite <- app_assoc.
+  rewrite read_u32_show by (auto; reflexivity).
+  destruct (zlen inds =? 0) eqn:E.
+  { destruct inds; [contradiction|]. rewrite zlen_cons in E. pose proof (zlen_nonneg I inds). lia. }
+  change ([10] ++ flat_map isave inds ++ rest) with (10 :: flat_map isave inds ++ rest).
+  rewrite (rep_rt_len I isave (ind_parse I iload idflt) inorm).
+  - reflexivity.
+  - intros x Hin. apply ind_parse_spec. rewrite Forall_forall in Hi. now apply Hi.
+  - intros. apply H_ind_len.
+Qed.
+
+Definition layer_norm (l : layer I) : layer I := (fst l, map inorm (snd l)).
+Definition wf_layer (l : layer I) : Prop :=
+  is_u32 (fst l) /\ is_u32 (zlen (snd l)) /\ Forall wfI (snd l).
+Definition wf_pop (p : population I) : Prop :=
+  p <> [] /\ is_u32 (zlen p) /\ Forall wf_layer p.
+
+Lemma layer_spec : forall l, wf_layer l ->
+  prt_spec (layer_save I isave) (layer_parse I iload idflt) layer_norm l.
+Proof.
+  intros [al inds] (Ha & Hn & Hi) pre rest Hp. cbn [fst snd] in *.
+  unfold layer_parse, layer_save, layer_norm. cbn [fst snd]. repeat rewrite <- app_assoc.
+  rewrite read_u32_show by (auto; reflexivity).
+  rewrite (read_u32_show _ [32]) by (auto; reflexivity).
+  change ([10] ++ flat_map isave inds ++ rest) with (10 :: flat_map isave inds ++ rest).
+  rewrite (rep_rt_len I isave (ind_parse I iload idflt) inorm).
+  - reflexivity.
+  - intros x Hin. apply ind_parse_spec. rewrite Forall_forall in Hi. now apply Hi.
+  - intros. apply H_ind_len.
+Qed.
+
+Lemma pop_rt : forall p, wf_pop p ->
+  rt_spec (pop_save I isave) (pop_load I iload idflt) (map layer_norm) p.
+Proof.
+  intros p (Hne & Hn & Hl) pre rest t Hp.
+  unfold pop_load, pop_save. repeat rewrite <- app_assoc.
+  rewrite read_u32_show by (auto; reflexivity).
+  destruct (zlen p =? 0) eqn:E.
+  { destruct p; [contradiction|]. rewrite zlen_cons in E. pose proof (zlen_nonneg _ p). lia. }
+  change ([10] ++ flat_map (layer_save I isave) p ++ rest) with (10 :: flat_map (layer_save I isave) p ++ rest).
+  rewrite (rep_rt_len (layer I) (layer_save I isave) (layer_parse I iload idflt) layer_norm).
+  - reflexivity.
+  - intros l Hin. apply layer_spec. rewrite Forall_forall in Hl. now apply Hl.
+  - intros l _. unfold layer_save. repeat rewrite app_length. cbn [length]. lia.
+Qed.
+
+(* summary: "no best known" is the default best *)
+Variable isempty : I -> bool.
+Definition sum_norm (x : summary I) : summary I :=
+  {| su_sol := if isempty (su_sol x) then su_sol x else inorm (su_sol x);
+     su_fit := su_fit x; su_acc := su_acc x; su_elapsed := su_elapsed x;
+     su_mutations := su_mutations x; su_crossovers := su_crossovers x;
+     su_gen := su_gen x; su_last_imp := su_last_imp x |}.
+Definition wf_summary (x : summary I) : Prop :=
+  (if isempty (su_sol x)
+   then su_sol x = idflt /\ su_fit x = [] /\ su_acc x = minus_one
+   else wfI (su_sol x) /\ wf_fit (su_fit x) /\ finite_b (su_acc x) = true) /\
+  is_i32 (su_elapsed x) /\ is_u64 (su_mutations x) /\ is_u64 (su_crossovers x) /\
+  is_u32 (su_gen x) /\ is_u32 (su_last_imp x).
+
+Lemma summary_rt : forall x, wf_summary x ->
+  rt_spec (summary_save show17 I isave isempty) (summary_load read_f I iload idflt) sum_norm x.
+Proof.
+  intros [sol fit acc el mu cr ge li] (Hb & He & Hm & Hc & Hg & Hl) pre rest t Hp.
+  cbn [su_sol su_fit su_acc su_elapsed su_mutations su_crossovers su_gen su_last_imp] in *.
+  unfold summary_load, summary_save, sum_norm.
+  cbn [su_sol su_fit su_acc su_elapsed su_mutations su_crossovers su_gen su_last_imp].
+  destruct (isempty sol) eqn:Ee.
+  - destruct Hb as (Hs & Hf & Ha). subst.
+    repeat rewrite <- app_assoc.
+    change ([48; 10] ++ show_i el ++ [32] ++ show_u mu ++ [32] ++ show_u cr ++ [32] ++ show_u ge ++ [32] ++ show_u li ++ [10] ++ rest)
+      with (show_u 0 ++ [10] ++ show_i el ++ [32] ++ show_u mu ++ [32] ++ show_u cr ++ [32] ++ show_u ge ++ [32] ++ show_u li ++ [10] ++ rest).
+    rewrite read_u32_show; [|unfold is_u32, u32_max; lia|assumption|reflexivity].
+    cbn [Z.eqb].
+    rewrite (read_i32_show el [10]) by (auto; reflexivity).
+    rewrite (read_u64_show mu [32]) by (auto; reflexivity).
+    rewrite (read_u64_show cr [32]) by (auto; reflexivity).
+    rewrite (read_u32_show ge [32]) by (auto; reflexivity).
+    rewrite (read_u32_show li [32]) by (auto; reflexivity).
+    reflexivity.
+  - destruct Hb as (Hs & Hf & Ha).
+    repeat rewrite <- app_assoc.
+    change ([49; 10] ++ isave sol ++ fit_save show17 fit ++ show17 acc ++ [10] ++ show_i el ++ [32] ++ show_u mu ++ [32] ++ show_u cr ++ [32] ++ show_u ge ++ [32] ++ show_u li ++ [10] ++ rest)
+      with (show_u 1 ++ [10] ++ isave sol ++ fit_save show17 fit ++ show17 acc ++ [10] ++ show_i el ++ [32] ++ show_u mu ++ [32] ++ show_u cr ++ [32] ++ show_u ge ++ [32] ++ show_u li ++ [10] ++ rest).
+    rewrite read_u32_show; [|unfold is_u32, u32_max; lia|assumption|reflexivity].
+    cbn [Z.eqb].
+    rewrite (ind_parse_spec sol Hs [10]) by reflexivity.
+    change (10 :: fit_save show17 fit ++ show17 acc ++ [10] ++ show_i el ++ [32] ++ show_u mu ++ [32] ++ show_u cr ++ [32] ++ show_u ge ++ [32] ++ show_u li ++ [10] ++ rest)
+      with ([10] ++ fit_save show17 fit ++ (show17 acc ++ [10] ++ show_i el ++ [32] ++ show_u mu ++ [32] ++ show_u cr ++ [32] ++ show_u ge ++ [32] ++ show_u li ++ [10] ++ rest)).
+    rewrite (fit_rt fit [10]) by (auto; reflexivity).
+    match goal with |- context [read_f (show17 acc ++ ?r)] =>
+      change (show17 acc ++ r) with ([] ++ show17 acc ++ r) end.
+    rewrite (read_f_show acc []) by (auto; reflexivity).
+    rewrite (read_i32_show el [10]) by (auto; reflexivity).
+    rewrite (read_u64_show mu [32]) by (auto; reflexivity).
+    rewrite (read_u64_show cr [32]) by (auto; reflexivity).
+    rewrite (read_u32_show ge [32]) by (auto; reflexivity).
+    rewrite (read_u32_show li [32]) by (auto; reflexivity).
+    reflexivity.
+Qed.
+
+End ContainersRT.
+
+End Floats.
